@@ -186,7 +186,7 @@ func runC19(c *core.Ctx) {
 			a.checkAt(n1 >= 1, fname(db)+" rejects padCount > group size", a.fnPos(db), "", "an invalid marker (pad count above the group size) is not rejected")
 			n2 := 0
 			core.Instrs(db, func(in ssa.Instruction) {
-				if b, ok := in.(*ssa.BinOp); ok && b.Op == token.NEQ && (strings.Contains(b.X.Type().String(), "uint8") || b.X.Type().String() == "byte") {
+				if b, ok := in.(*ssa.BinOp); ok && (b.Op == token.NEQ || b.Op == token.EQL) && (strings.Contains(b.X.Type().String(), "uint8") || b.X.Type().String() == "byte") {
 					n2++
 				}
 			})
